@@ -1,7 +1,10 @@
 import TexcraftModel.Lemmas.C04
+import TexcraftModel.Lemmas.C04AlgoLoose
+import TexcraftModel.Lemmas.C04AlgoBound2
+import TexcraftModel.Lemmas.C04AlgoForce
 
 /-!
-# C04 — property theorems (reference optimum)
+# C04 — property theorems (reference optimum, and the active-list algorithm)
 
 `Feasible x s` / `total x s` are TeX's definition of a feasible break sequence and of its
 total demerits (Model/C04.lean). The theorems say that the dynamic programme `dp` computes,
@@ -15,10 +18,35 @@ list, every length, every parameter setting:
 * `dpBest_sound`, `dpBest_optimal`, `dpBest_none_iff`   the same over all line counts:
                   "a solution exists iff …, and then no feasible sequence has smaller demerits"
 
-**Partial** (stated in DESIGN.md 5.5): these are theorems about the reference, not about the
-active-list algorithm in `break_line_single_attempt`. The implementation is judged against
-the reference on every run: its answer must be `Feasible` with `total = dpBest`
-(resp. the looseness rule on `dp`), and `None` exactly when `dpBest = none`.
+The second part (end of the file) is about the implementation's algorithm: `C04.algo`
+(Model/C04Algo.lean) is a clause-by-clause transcription of `break_line_single_attempt`
+(active list, line classes, candidates, pruning threshold, break width), tied to the real code
+by exact comparison, on every generated case, of the returned break lists (stream `algo`) and of
+the active nodes created along the way (stream `trace`).
+
+* `algo_active_sound`, `algo_sound`, `algo_total`   every active node records a feasible
+                  sequence with its exact total; whatever `algo` returns (any looseness,
+                  `force_solution = false`) is `Feasible` and its recorded total is the true one
+* `algo_dominates`   under the quantifier's restriction (`monotone`), looseness 0 and totals below
+                  `AWFUL_BAD`: no feasible sequence beats the answer (and an answer exists)
+* `algo_none_iff`, `algo_optimal`, `algo_optimal_dec`   "returns breakpoints iff a feasible
+                  sequence exists, and then its total is the optimum `dpBest`"
+* `algo_totals_in_range`   every stored total is a feasible prefix's exact total and, inside
+                  `demBound x < AWFUL_BAD`, strictly between `∓AWFUL_BAD` (fits `i32`)
+* `algo_loose`, `algo_loose_none_iff`   looseness `q ≠ 0` (same restriction): an answer has exactly
+                  `Lb + q` lines (`Lb` = least optimal line count, `BestCount`) and the least total among
+                  the feasible sequences with that many lines; `none` iff nothing is feasible or no
+                  feasible sequence has `Lb + q` lines
+
+* `algo_force_always`   with `force_solution = true` the pass always returns breakpoints (no
+                  hypothesis)
+
+**What the theorems do not say**: (1) the transcription works in `Int`, the real code in `i32`
+(agreement is checked per run inside `demBound x < AWFUL_BAD`; no theorem excludes overflow).
+(2) `force_solution = true` (artificial demerits; then "as far as feasible" of TeX.2021.875) is
+transcribed and compared per run; the only theorem about it is `algo_force_always` (the property
+is about `force_solution = false`). (3) The tie to the Rust code is the exact per-run comparison, not
+an extraction.
 -/
 namespace C04
 
@@ -280,5 +308,315 @@ example : Feasible ex1 [3, 7] := by simp [Feasible]; decide
 example : dpBest ex1 = some 200 := by decide
 example : total ex1 [1, 7] = none := by decide        -- second line would be overfull
 example : dp ex1 1 = none ∧ dp ex1 2 = some 200 := by decide
+
+/-! ## The active-list algorithm (`C04.algo`, the transcription of `break_line_single_attempt`) -/
+
+/-- **Soundness of the active list** (Stage B): after the main loop every active node records a
+complete feasible sequence of breaks, and the total it carries is that sequence's true total
+demerits. Any looseness; `force_solution = false`; discretionaries well formed (`discOK`: the
+replaced nodes exist and are boxes or kerns, TeX.2021.869). -/
+theorem algo_active_sound (x : Inst) (q : Int) (hd : discOK x = true) (ν : ANode)
+    (hν : ν ∈ (mainLoop x q false).active) : total x ν.path.reverse = some ν.total :=
+  final_total ((mainLoop_inv hd q).nodes ν hν)
+
+/-- What `algo` returns is the break sequence of an active node, with that node's total. -/
+theorem algo_total (x : Inst) (q : Int) (hd : discOK x = true) (bs : List Nat)
+    (h : algo x q false = some bs) :
+    ∃ ν, ν ∈ (mainLoop x q false).active ∧ bs = ν.path.reverse ∧ total x bs = some ν.total := by
+  obtain ⟨ν, hν, hbs⟩ := finish_mem q _ bs h
+  exact ⟨ν, hν, hbs, by rw [hbs]; exact algo_active_sound x q hd ν hν⟩
+
+/-- **Soundness**: whatever the algorithm returns is a feasible break sequence (for every
+looseness). -/
+theorem algo_sound (x : Inst) (q : Int) (hd : discOK x = true) (bs : List Nat)
+    (h : algo x q false = some bs) : Feasible x bs := by
+  obtain ⟨ν, _, _, ht⟩ := algo_total x q hd bs h
+  simp [Feasible, ht]
+
+/-- **Domination** (Stage C): if overfull lines are upward closed (`monotone`, the quantifier's
+restriction), looseness is 0 and feasible totals stay below `AWFUL_BAD`, then for every feasible
+sequence the algorithm returns an answer that is at least as good. -/
+theorem algo_dominates (x : Inst) (hd : discOK x = true) (hm : monotone x = true)
+    (hW : 0 < x.p.widths.length) (hB : PrefixBounded x) (s : List Nat) (d : Int)
+    (h : total x s = some d) :
+    ∃ bs d', algo x 0 false = some bs ∧ total x bs = some d' ∧ d' ≤ d := by
+  obtain ⟨ν, hν, _, hle⟩ := final_dominated 0 hd hm hW hB s d h
+  cases ha : algo x 0 false with
+  | none =>
+    have := finish_none_zero _ ha
+    rw [this] at hν; cases hν
+  | some bs =>
+    obtain ⟨μ, hμ, hbs, hmin⟩ := finish_zero _ bs ha
+    refine ⟨bs, μ.total, rfl, ?_, Int.le_trans (hmin ν hν) hle⟩
+    rw [hbs]; exact algo_active_sound x 0 hd μ hμ
+
+/-- **Existence**: the algorithm returns nothing iff no sequence of legal breakpoints keeps every
+line within the tolerance. -/
+theorem algo_none_iff (x : Inst) (hd : discOK x = true) (hm : monotone x = true)
+    (hW : 0 < x.p.widths.length) (hB : PrefixBounded x) :
+    algo x 0 false = none ↔ ∀ s, ¬ Feasible x s := by
+  constructor
+  · intro hn s hf
+    unfold Feasible at hf
+    cases ht : total x s with
+    | none => simp [ht] at hf
+    | some d =>
+      obtain ⟨bs, _, hbs, _⟩ := algo_dominates x hd hm hW hB s d ht
+      rw [hn] at hbs; cases hbs
+  · intro hno
+    cases ha : algo x 0 false with
+    | none => rfl
+    | some bs => exact absurd (algo_sound x 0 hd bs ha) (hno bs)
+
+/-- **C04 for the algorithm**: it finds a solution iff one exists, and the solution's total
+demerits are the optimum (`dpBest`, proved least over all feasible sequences above). -/
+theorem algo_optimal (x : Inst) (hd : discOK x = true) (hm : monotone x = true)
+    (hW : 0 < x.p.widths.length) (hB : PrefixBounded x) :
+    (algo x 0 false = none ↔ dpBest x = none) ∧
+    (∀ bs, algo x 0 false = some bs → total x bs = dpBest x) := by
+  refine ⟨?_, ?_⟩
+  · rw [algo_none_iff x hd hm hW hB, dpBest_none_iff]
+  · intro bs ha
+    obtain ⟨ν, _, _, ht⟩ := algo_total x 0 hd bs ha
+    obtain ⟨d', hd', hle⟩ := dpBest_optimal x bs ν.total ht
+    obtain ⟨s, _, hs⟩ := dpBest_sound x d' hd'
+    obtain ⟨bs2, d2, hbs2, ht2, hle2⟩ := algo_dominates x hd hm hW hB s d' hs
+    rw [ha] at hbs2
+    cases hbs2
+    rw [ht] at ht2
+    cases ht2
+    rw [ht, hd']
+    congr 1
+    omega
+
+/-- The same with the decidable bound the driver evaluates per instance
+(`demBound x < AWFUL_BAD`, proved sufficient in `demBound_sound`). -/
+theorem algo_optimal_dec (x : Inst) (hd : discOK x = true) (hm : monotone x = true)
+    (hW : 0 < x.p.widths.length) (hB : demBound x < awfulBad) :
+    (algo x 0 false = none ↔ dpBest x = none) ∧
+    (∀ bs, algo x 0 false = some bs → total x bs = dpBest x) :=
+  algo_optimal x hd hm hW (demBound_sound x hB)
+
+/-- Every total an active node ever carries (after any number `k` of iterations of the main
+loop) is the exact total of a feasible sequence of lines, and inside the decidable bound it
+lies strictly between `−AWFUL_BAD` and `AWFUL_BAD`: the values the code keeps in `i32`
+`total_demerits` fields fit (the transcription computes in `Int`). -/
+theorem algo_totals_in_range (x : Inst) (q : Int) (hd : discOK x = true)
+    (hb : demBound x < awfulBad) (k : Nat) (hk : k ≤ x.n + 1) (ν : ANode)
+    (hν : ν ∈ ((List.range k).foldl (step x q false) {}).active) :
+    run x {} ν.path.reverse = some (ν.total, ⟨ν.pos, ν.line, ν.fit⟩) ∧
+      -awfulBad < ν.total ∧ ν.total < awfulBad := by
+  have h := ((loop_inv hd q k hk).nodes ν hν).ok.run
+  exact ⟨h, demBound_sound_lower x hb _ _ _ h, demBound_sound x hb _ _ _ h⟩
+
+/-! ### Looseness ≠ 0 (TeX.2021.875), `force_solution = false` -/
+
+/-- `Lb` is the least number of lines with which the overall optimum `d` is reached (the line
+count of the first active node of least demerits, which the looseness is counted from). -/
+def BestCount (x : Inst) (Lb : Nat) (d : Int) : Prop :=
+  dpBest x = some d ∧ dp x Lb = some d ∧ ∀ L, L < Lb → dp x L ≠ some d
+
+theorem BestCount_unique {x : Inst} {L1 L2 : Nat} {d1 d2 : Int} (h1 : BestCount x L1 d1)
+    (h2 : BestCount x L2 d2) : L1 = L2 ∧ d1 = d2 := by
+  have hd : d1 = d2 := by have := h1.1.symm.trans h2.1; simpa using this
+  subst hd
+  refine ⟨?_, rfl⟩
+  rcases Nat.lt_trichotomy L1 L2 with h | h | h
+  · exact absurd h1.2.1 (h2.2.2 L1 h)
+  · exact h
+  · exact absurd h2.2.1 (h1.2.2 L2 h)
+
+/-- Every final active node is at least as expensive as the optimum for its number of lines. -/
+private theorem act_dp_le {x : Inst} {act : List ANode}
+    (h1 : ∀ ν, ν ∈ act → total x ν.path.reverse = some ν.total ∧ ν.path.reverse.length = ν.line)
+    {ν : ANode} (hν : ν ∈ act) : ∃ d', dp x ν.line = some d' ∧ d' ≤ ν.total := by
+  obtain ⟨ht, hl⟩ := h1 ν hν
+  have := dp_optimal x ν.path.reverse ν.total ht
+  rwa [hl] at this
+
+/-- Every per-line-count optimum is realised exactly by a final active node. -/
+private theorem dp_act {x : Inst} {act : List ANode}
+    (h1 : ∀ ν, ν ∈ act → total x ν.path.reverse = some ν.total ∧ ν.path.reverse.length = ν.line)
+    (h2 : ∀ s d, total x s = some d → ∃ ν, ν ∈ act ∧ ν.line = s.length ∧ ν.total ≤ d)
+    {L : Nat} {d : Int} (h : dp x L = some d) : ∃ ν, ν ∈ act ∧ ν.line = L ∧ ν.total = d := by
+  obtain ⟨s, hs, ht⟩ := dp_sound x L d h
+  obtain ⟨ν, hν, hl, hle⟩ := h2 s d ht
+  obtain ⟨d', hd', hle'⟩ := act_dp_le h1 hν
+  rw [hl, hs, h] at hd'
+  simp only [Option.some.injEq] at hd'
+  exact ⟨ν, hν, by omega, by omega⟩
+
+/-- **C04 with looseness, for the algorithm** (`q ≠ 0`, `force_solution = false`, the quantifier's
+restriction and totals below `AWFUL_BAD`). Let `Lb` be the least number of lines reaching the
+overall optimum. If the pass returns breakpoints, they form a feasible sequence of exactly
+`Lb + q` lines whose total demerits are least among all feasible sequences with that many lines;
+if it returns `None`, there is no feasible sequence at all or none with exactly `Lb + q` lines
+(TeX then tries the next pass, TeX.2021.873). -/
+theorem algo_loose (x : Inst) (q : Int) (hq : q ≠ 0) (hd : discOK x = true)
+    (hm : monotone x = true) (hW : 0 < x.p.widths.length) (hB : PrefixBounded x) :
+    (∀ bs, algo x q false = some bs →
+      ∃ Lb d, BestCount x Lb d ∧ (bs.length : Int) = (Lb : Int) + q ∧
+        (total x bs).isSome = true ∧ total x bs = dp x bs.length) ∧
+    (algo x q false = none →
+      dpBest x = none ∨
+      ∃ Lb d, BestCount x Lb d ∧ ∀ L : Nat, (L : Int) = (Lb : Int) + q → dp x L = none) := by
+  obtain ⟨h1, h2, h3⟩ := final_facts x q hq hd hm hW hB
+  unfold algo
+  generalize (mainLoop x q false).active = act at h1 h2 h3
+  cases act with
+  | nil =>
+    refine ⟨fun bs h => by simp [finish] at h, fun _ => Or.inl ?_⟩
+    cases hb : dpBest x with
+    | none => rfl
+    | some d =>
+      obtain ⟨s, _, hs⟩ := dpBest_sound x d hb
+      obtain ⟨ν, hν, _⟩ := h2 s d hs
+      cases hν
+  | cons first t =>
+    obtain ⟨l1, l2, hsplit, hl1, hmin⟩ := firstBest_split first t
+    generalize hb0 : firstBest first (first :: t) = best0 at hsplit hl1 hmin
+    have hbm : best0 ∈ first :: t := by rw [hsplit]; simp
+    -- the first node of least demerits sits at the least optimal line count
+    have hbc : BestCount x best0.line best0.total := by
+      obtain ⟨d', hd', hle'⟩ := act_dp_le h1 hbm
+      obtain ⟨μ, hμ, _, hμt⟩ := dp_act h1 h2 hd'
+      have hd'' : d' = best0.total := by have := hmin μ hμ; omega
+      subst hd''
+      refine ⟨?_, hd', ?_⟩
+      · obtain ⟨d2, hd2, hle2⟩ := dpBest_optimal x best0.path.reverse best0.total (h1 best0 hbm).1
+        obtain ⟨s, _, hs⟩ := dpBest_sound x d2 hd2
+        obtain ⟨ν, hν, _, hνle⟩ := h2 s d2 hs
+        have := hmin ν hν
+        rw [hd2]; congr 1; omega
+      · intro L hL hdp
+        obtain ⟨μ, hμ, hμl, hμt⟩ := dp_act h1 h2 hdp
+        rw [hsplit] at hμ h3
+        rcases List.mem_append.mp hμ with hin | hin
+        · have := hl1 μ hin; omega
+        · rw [List.pairwise_append] at h3
+          have hp := h3.2.1
+          rw [List.pairwise_cons] at hp
+          rcases List.mem_cons.mp hin with rfl | hin2
+          · omega
+          · have := hp.1 μ hin2; omega
+    obtain ⟨hrm, hrD, hriff, hrmin⟩ := loosen_spec q hq best0 (first :: t) hbm
+    rw [finish_loose q hq, hb0]
+    refine ⟨?_, ?_⟩
+    · intro bs hbs
+      split at hbs
+      · cases hbs
+      · rename_i hr2
+        have hr2' : (loosen q best0 (first :: t)).2 = q := by
+          simpa using hr2
+        simp only [Option.some.injEq] at hbs
+        obtain ⟨ht, hlen⟩ := h1 _ hrm
+        refine ⟨best0.line, best0.total, hbc, ?_, ?_, ?_⟩
+        · rw [← hbs, hlen]; omega
+        · rw [← hbs, ht]; rfl
+        · rw [← hbs, ht, hlen]
+          obtain ⟨d', hd', hle'⟩ := act_dp_le h1 hrm
+          obtain ⟨μ, hμ, hμl, hμt⟩ := dp_act h1 h2 hd'
+          have := hrmin hr2' μ hμ (by rw [hμl]; omega)
+          rw [hd']; congr 1; omega
+    · intro hnone
+      split at hnone
+      · rename_i hr2
+        right
+        refine ⟨best0.line, best0.total, hbc, ?_⟩
+        intro L hL
+        cases hdp : dp x L with
+        | none => rfl
+        | some d =>
+          exfalso
+          obtain ⟨μ, hμ, hμl, _⟩ := dp_act h1 h2 hdp
+          exact hr2 (hriff.mpr ⟨μ, hμ, by rw [hμl]; omega⟩)
+      · cases hnone
+
+/-- The `None` case of `algo_loose` as an equivalence. -/
+theorem algo_loose_none_iff (x : Inst) (q : Int) (hq : q ≠ 0) (hd : discOK x = true)
+    (hm : monotone x = true) (hW : 0 < x.p.widths.length) (hB : PrefixBounded x) :
+    algo x q false = none ↔
+      (dpBest x = none ∨
+       ∃ Lb d, BestCount x Lb d ∧ ∀ L : Nat, (L : Int) = (Lb : Int) + q → dp x L = none) := by
+  obtain ⟨hsome, hnone⟩ := algo_loose x q hq hd hm hW hB
+  refine ⟨hnone, ?_⟩
+  intro h
+  cases ha : algo x q false with
+  | none => rfl
+  | some bs =>
+    exfalso
+    obtain ⟨Lb, d, hbc, hlen, hfe, htot⟩ := hsome bs ha
+    rcases h with h | ⟨Lb', d', hbc', hno⟩
+    · rw [hbc.1] at h; cases h
+    · obtain ⟨hL, _⟩ := BestCount_unique hbc hbc'
+      subst hL
+      rw [hno bs.length hlen] at htot
+      rw [htot] at hfe
+      cases hfe
+
+/-! ### `force_solution = true` -/
+
+/-- The final (forced) pass always returns breakpoints — for every list, looseness and parameter
+setting, without any hypothesis: the active list never becomes empty (TeX.2021.854: artificial
+demerits keep the last node alive), so the `.expect("force_solution=true")` of
+`break_line_all_attempts` (lib.rs:489) cannot fail. -/
+theorem algo_force_always (x : Inst) (q : Int) : (algo x q true).isSome = true :=
+  algo_force_some x q
+
+/-! Non-vacuity: the hypotheses hold on the concrete paragraph `ex1`, the algorithm answers,
+and on an instance without any feasible sequence it answers `none`. -/
+
+example : discOK ex1 = true ∧ monotone ex1 = true ∧ 0 < ex1.p.widths.length ∧ demBound ex1 < awfulBad := by
+  decide
+example : PrefixBounded ex1 := demBound_sound ex1 (by decide)
+example : algo ex1 0 false = some [3, 7] := by decide
+example : total ex1 [3, 7] = dpBest ex1 := by decide
+
+/-- Tolerance 5 at line width 24: one box is too loose, two are too tight: nothing is feasible. -/
+def ex2 : Inst := { ex1 with p := { widths := [24], tolerance := 5 } }
+example : discOK ex2 = true ∧ monotone ex2 = true ∧ demBound ex2 < awfulBad := by decide
+example : algo ex2 0 false = none ∧ dpBest ex2 = none := by decide
+example : algo ex2 0 true = some [7] := by decide     -- the forced pass answers all the same
+
+/-- A discretionary with replaced node and post-break material, two line widths. -/
+def ex3 : Inst :=
+  { items := [.box 10, .disc [2] [3] 1, .box 4, .box 6, .glue ⟨5, 3, 0, 2⟩, .box 10,
+              .penalty 10000, .glue ⟨0, 65536, 1, 0⟩],
+    p := { widths := [12, 25], tolerance := 10000 } }
+example : discOK ex3 = true ∧ monotone ex3 = true ∧ demBound ex3 < awfulBad := by decide
+example : (algo ex3 0 false).isSome = true ∧ (algo ex3 0 false).bind (total ex3) = dpBest ex3 := by decide
+
+/-- Finite stretch on the last line: two, three and four lines are feasible (optimum: two). -/
+def ex4 : Inst :=
+  { items := [.box 30, .glue ⟨5, 10, 0, 0⟩, .box 30, .glue ⟨5, 10, 0, 0⟩, .box 30, .glue ⟨5, 20, 0, 0⟩,
+              .box 15, .penalty 10000, .glue ⟨0, 200, 0, 0⟩],
+    p := { widths := [100], tolerance := 10000 } }
+example : discOK ex4 = true ∧ monotone ex4 = true ∧ demBound ex4 < awfulBad := by decide
+example : BestCount ex4 2 424 := by
+  refine ⟨by decide, by decide, ?_⟩
+  intro L hL
+  have : L = 0 ∨ L = 1 := by omega
+  rcases this with rfl | rfl <;> decide
+example : algo ex4 1 false = some [1, 5, 9] ∧ total ex4 [1, 5, 9] = dp ex4 3 := by decide
+example : algo ex4 (-1) false = none ∧ dp ex4 1 = none := by decide
+
+/-! The hypotheses of `algo_optimal` cannot be dropped (the faithful model, like TeX, misses the
+solution outside them): -/
+
+/-- Not monotone: the line from the start to the penalty is overfull, the longer line to the end
+is not (negative kern). The only active node is deactivated at the penalty. -/
+def ex5 : Inst :=
+  { items := [.box 50, .penalty 0, .kern false (-20), .box 5, .penalty 10000, .glue ⟨0, 65536, 1, 0⟩],
+    p := { widths := [40], tolerance := 200 } }
+example : monotone ex5 = false ∧ discOK ex5 = true ∧ demBound ex5 < awfulBad ∧
+    algo ex5 0 false = none ∧ dpBest ex5 = some 100 := by decide
+
+/-- Not bounded: `\finalhyphendemerits = 2^30` makes the only feasible sequence cost more than
+`AWFUL_BAD`; the candidate is never recorded. -/
+def ex6 : Inst :=
+  { items := [.box 30, .disc [2] [] 0, .box 30, .penalty 10000, .glue ⟨0, 65536, 1, 0⟩],
+    p := { widths := [40], tolerance := 10000, finalHyphenDemerits := 1073741824 } }
+example : monotone ex6 = true ∧ discOK ex6 = true ∧ ¬ demBound ex6 < awfulBad ∧
+    algo ex6 0 false = none ∧ dpBest ex6 = some 1173764424 := by decide
 
 end C04
